@@ -42,6 +42,13 @@ pub fn run_one(
                 seed, tier == Tier::Thorough, &mask, &scratch
             )
         }
+        if property == "C23" {
+            let mut profile = crate::enga::Profile::base("C23");
+            profile.steps = 3;
+            return crate::enga::run_crash(
+                seed, &profile, &mask, &scratch, tier == Tier::Thorough
+            )
+        }
         if property == "C24" {
             return crate::engb::run_c24(
                 seed, tier == Tier::Thorough, &mask, &scratch
